@@ -17,6 +17,10 @@ import (
 	"google.golang.org/grpc/health/grpc_health_v1"
 )
 
+// grpcShutdownTimeout is how long GRPCClient.Close waits for the plugin to
+// answer the shutdown request.
+const grpcShutdownTimeout = 2 * time.Second
+
 func dialGRPCConn(tls *tls.Config, dialer func(string, time.Duration) (net.Conn, error), dialOpts ...grpc.DialOption) (*grpc.ClientConn, error) {
 	// Build dialing options.
 	opts := make([]grpc.DialOption, 0)
@@ -104,7 +108,11 @@ type GRPCClient struct {
 // ClientProtocol impl.
 func (c *GRPCClient) Close() error {
 	c.broker.Close()
-	c.controller.Shutdown(c.doneCtx, &plugin.Empty{})
+	// Bound the shutdown request so that a plugin that no longer responds
+	// (e.g. a stopped process) cannot block Close, and therefore Kill, forever.
+	ctx, cancel := context.WithTimeout(c.doneCtx, grpcShutdownTimeout)
+	defer cancel()
+	c.controller.Shutdown(ctx, &plugin.Empty{})
 	return c.Conn.Close()
 }
 
